@@ -170,11 +170,15 @@ class JobArrayer:
     def get_stale_descrs(self) -> list[JobDescription]:
         """Submits jobs that haven't been touched in a while"""
         currtime = time.time()
-        stales = [
-            descr
-            for descr in self.pending
-            if (currtime - self.pending_timestamps[descr] > self.stale_time)
-        ]
+        # Lock, otherwise add_job() inserting a new descr at the wrong time makes
+        # the iteration raise (dict changed size / timestamp not yet written),
+        # which kills the monitor thread.
+        with self._lock:
+            stales = [
+                descr
+                for descr in self.pending
+                if (currtime - self.pending_timestamps[descr] > self.stale_time)
+            ]
         return stales
 
     def submit_pending_jobs(self, descr: JobDescription) -> None:
